@@ -134,10 +134,14 @@ class Verdict:
         self.kf = load_known_findings().get(pid, [])
         self._known_printed = set()
 
-    def violation(self, clause: str, case: dict, signature: dict | None = None):
+    def violation(self, clause: str, case: dict, signature: dict | None = None, judge: dict | None = None,
+                  rerun: dict | None = None):
         """Report one failing case.  `signature` is the abstract mechanism
         signature; if it matches an open known finding the case is a
-        KNOWN-FINDING, otherwise a VIOLATION with a replay file."""
+        KNOWN-FINDING, otherwise a VIOLATION with a replay file.
+        `judge` (see J) stores the judged trace so that `./check Cnn --replay file` can re-judge it with
+        TLC; `rerun` (see R) stores the driver call that produced it, so that the replay first runs the
+        current code on the same input again."""
         signature = signature or {}
         for k in self.kf:
             if k.get("status", "open") != "open":
@@ -154,6 +158,10 @@ class Verdict:
                 return
         rec = {"property": self.pid, "clause": clause, "signature": signature, "case": case,
                "replay_cmd": f"./check {self.pid} --replay <this file>"}
+        if judge:
+            rec["judge"] = judge
+        if rerun:
+            rec["rerun"] = rerun
         d = (VERIF / "replays" if str(REPO) == "/repo" else WORK / "replays-scratch") / self.pid
         d.mkdir(parents=True, exist_ok=True)
         path = d / f"{sha(rec)}.json"
@@ -306,10 +314,83 @@ def impl_map(driver: str, func: str, items: list, *, chunks: int | None = None,
     return res
 
 
+def J(module: str, cfg: str, trace, wrap: dict | None = None) -> dict:
+    """the judged trace of a failing case (for --replay): trace specification, configuration, the record"""
+    return {"module": module, "cfg": cfg, "trace": trace, "wrap": wrap}
+
+
+def R(driver: str, func: str, item, common=None, env: dict | None = None, hs_cache: bool = False,
+      fields: list | None = None) -> dict:
+    """the driver call that produced a trace record (for --replay).  fields = None: the driver's result IS the
+    judged record; otherwise only these fields of the result are copied into the stored record (the rest of
+    it -- the expectation, the input list -- does not depend on the code)"""
+    return {"driver": driver, "func": func, "item": item, "common": common, "env": env or {}, "hs_cache": hs_cache,
+            "fields": fields}
+
+
+def replay(pid: str, path: str) -> int:
+    """./check Cnn --replay <file>: run the recorded input through the CURRENT code again (when the file
+    holds a driver call) and let TLC judge the result with the same trace specification; exit 1 with a
+    VIOLATION line iff the recorded clause fails again, 0 if it holds now, 2 if the file cannot be replayed."""
+    rec = json.loads(Path(path).read_text())
+    j = rec.get("judge")
+    if rec.get("property") != pid or not j:
+        print(f"ERROR machinery property={pid}: {path} holds no judged trace for {pid} (it documents the failing case only)",
+              file=sys.stderr)
+        return 2
+    trace = j["trace"]
+    r = rec.get("rerun")
+    if r:
+        env = dict(r.get("env") or {})
+        hs_dir = None
+        if r.get("hs_cache"):
+            hs_dir = WORK / f"hs-{os.getpid()}-{time.time_ns()}"
+            hs_dir.mkdir(parents=True)
+            env["VERIF_HS_CACHE"] = str(hs_dir)
+        try:
+            fresh = impl_map(r["driver"], r["func"], [r["item"]], common=r.get("common"), env=env)[0]
+            trace = fresh if not r.get("fields") else {**trace, **{k: fresh[k] for k in r["fields"]}}
+        finally:
+            if hs_dir:
+                shutil.rmtree(hs_dir, ignore_errors=True)
+        print(f"REPLAY re-ran {r['driver']}.{r['func']} on the recorded input with the current code", flush=True)
+    else:
+        print("REPLAY re-judging the recorded observation (this case has no single driver call to re-run)", flush=True)
+    ev = Evidence(pid)      # never written: a replay does not produce evidence
+    if j["module"] == "Trace_Eyecite":
+        # a session is a behaviour iff it is consumed to the end; a raised call is reported as FAIL
+        WORK.mkdir(exist_ok=True)
+        tf = WORK / f"trace-{os.getpid()}-{time.time_ns()}.json"
+        tf.write_text(json.dumps([trace]))
+        try:
+            r = run_tlc(j["module"], j["cfg"], env={"TRACE_FILE": str(tf)}, timeout=600)
+        finally:
+            tf.unlink(missing_ok=True)
+        tlc_must_pass(r, "Trace_Eyecite replay")
+        raised = [e for e in trace["events"] if e.get("raised")]
+        if '<<"FAIL", 1, "C04.noraise">>' in r.out or raised:
+            print(f"REPLAY call {raised[0]['ev'] if raised else '?'} raised: {raised[0]['raised'] if raised else ''}", flush=True)
+            print(f"VIOLATION property={pid} replay={path}  clause={rec['clause']}", flush=True)
+            return 1
+        done = '<<"DONE", 1>>' in r.out
+        print("REPLAY session " + ("accepted" if done else "rejected without a raised call (SPEC-DRIFT)"), flush=True)
+        return 0
+    w = j.get("wrap")
+    fails, drifts = tlc_judge(j["module"], j["cfg"], [trace], ev, "replay",
+                              wrap=(lambda part: {**w, "traces": part}) if w else None)
+    for _, cl in fails:
+        print(f"REPLAY clause {cl} fails", flush=True)
+    if any(cl == rec["clause"] for _, cl in fails):
+        print(f"VIOLATION property={pid} replay={path}  clause={rec['clause']}", flush=True)
+        return 1
+    print(f"REPLAY clause {rec['clause']} holds on this input now", flush=True)
+    return 0
+
+
 def main_wrapper(pid: str, fn):
     """Uniform entry point: exit 0/1 from the verdict, 2 on machinery failure."""
     try:
-        rc = fn()
+        rc = replay(pid, os.environ["VERIF_REPLAY"]) if os.environ.get("VERIF_REPLAY") else fn()
     except MachineryError as e:
         print(f"ERROR machinery property={pid}: {e}", file=sys.stderr, flush=True)
         sys.exit(2)
